@@ -66,7 +66,7 @@ func voteProtocol(cx *CheckCtx, names []string) int {
 		a := cx.run(m)
 		tb := a.tb
 		var votes []*Site
-		for _, s := range a.Sites(func(s *Site) bool { return s.Inlined && s.Callee == "common.Vote" }) {
+		for _, s := range a.Sites(func(s *Site) bool { return s.Inlined && isVoteFn(cx, s.Callee, 0) }) {
 			votes = append(votes, s)
 		}
 		key := "contracts/neofs." + name
@@ -138,7 +138,7 @@ func voteProtocol(cx *CheckCtx, names []string) int {
 		var ballotSites, actions []*Site
 		var rmFrame *Ctx
 		var rm *Site
-		for _, s := range a.Sites(func(s *Site) bool { return s.Inlined && s.Callee == "common.RemoveVotes" }) {
+		for _, s := range a.Sites(func(s *Site) bool { return s.Inlined && isVoteFn(cx, s.Callee, 1) }) {
 			rm = s
 			rmFrame = s.Ctx.kids[s.Instr]
 		}
@@ -295,8 +295,7 @@ func runC17Common(cx *CheckCtx, w *World) {
 	checkStoredLayouts(cx, "common")
 	checkLoaders(cx, "contracts/neofs")
 	// ---- common.Vote / TryPurgeVotes
-	voteFn := cx.pkgFunc("common", "Vote")
-	purgeFn := cx.pkgFunc("common", "TryPurgeVotes")
+	voteFn, _, purgeFn := voteFns(cx)
 	if voteFn == nil || purgeFn == nil {
 		return
 	}
@@ -514,7 +513,7 @@ func runC17Common(cx *CheckCtx, w *World) {
 		}
 		cx.decide(okPurge, "window", "common.TryPurgeVotes/sides", "false exactly when a ballot inside the window is met; the purge after all were found expired", "common.TryPurgeVotes: "+whyPurge, w.pos(purgeFn.Pos()))
 		// RemoveVotes removes the ballot at the index where the id matched
-		if rmFn := cx.pkgFunc("common", "RemoveVotes"); rmFn != nil {
+		if _, rmFn, _ := voteFns(cx); rmFn != nil {
 			okRmI, whyRmI := false, "no util.Remove call"
 			for _, b := range rmFn.Blocks {
 				for _, ins := range b.Instrs {
@@ -1290,4 +1289,64 @@ func abortHelper(cx *CheckCtx) *ssa.Function {
 	}
 	abortHelperCache[cx.W] = ab
 	return ab
+}
+
+// voteFns: the three functions of the ballot box in package common, found by what they are, not by their
+// names: the one that takes (ctx, id, voter), asks the chain height and answers a count; the one that takes
+// (ctx, id), answers nothing and stores; the one that takes (ctx) only, asks the chain height and answers bool.
+func voteFns(cx *CheckCtx) (vote, remove, purge *ssa.Function) {
+	height := func(f *ssa.Function) bool {
+		for k, n := range directCallees(f) {
+			if n > 0 && strings.HasSuffix(k, "ledger.CurrentIndex") {
+				return true
+			}
+		}
+		return false
+	}
+	vote = cx.locate("common", "Vote", "takes (ctx, id, voter), asks the chain height and answers an integer", func(f *ssa.Function) bool {
+		r := f.Signature.Results()
+		return len(f.Params) == 3 && r.Len() == 1 && isInteger(r.At(0).Type()) && height(f)
+	})
+	purge = cx.locate("common", "TryPurgeVotes", "takes (ctx), asks the chain height and answers a bool", func(f *ssa.Function) bool {
+		r := f.Signature.Results()
+		return len(f.Params) == 1 && r.Len() == 1 && isBoolType(r.At(0).Type()) && height(f)
+	})
+	var loader *ssa.Function
+	if vote != nil {
+		for _, b := range vote.Blocks {
+			for _, ins := range b.Instrs {
+				if c, ok := ins.(*ssa.Call); ok {
+					if cal := c.Common().StaticCallee(); cal != nil && cal.Pkg == vote.Pkg && len(cal.Params) == 1 && cal.Signature.Results().Len() == 1 {
+						if _, isSl := cal.Signature.Results().At(0).Type().Underlying().(*types.Slice); isSl {
+							loader = cal
+						}
+					}
+				}
+			}
+		}
+	}
+	remove = cx.locate("common", "RemoveVotes", "takes (ctx, id), answers nothing, loads the ballots as the vote does", func(f *ssa.Function) bool {
+		if len(f.Params) != 2 || f.Signature.Results().Len() != 0 || loader == nil {
+			return false
+		}
+		for _, b := range f.Blocks {
+			for _, ins := range b.Instrs {
+				if c, ok := ins.(*ssa.Call); ok && c.Common().StaticCallee() == loader {
+					return true
+				}
+			}
+		}
+		return false
+	})
+	return
+}
+
+// isVoteFn: callee is the vote (which = 0) or the removal (which = 1) function of the ballot box.
+func isVoteFn(cx *CheckCtx, callee string, which int) bool {
+	v, r, _ := voteFns(cx)
+	f := v
+	if which == 1 {
+		f = r
+	}
+	return f != nil && callee == fq(f)
 }
